@@ -15671,7 +15671,7 @@ func (t *TunnelEncapTLV) DecodeFromBytes(data []byte) error {
 		return NewMessageError(BGP_ERROR_UPDATE_MESSAGE_ERROR, BGP_ERROR_SUB_MALFORMED_ATTRIBUTE_LIST, nil, "Not all TunnelEncapTLV bytes available")
 	}
 	value := data[:t.Length]
-	for len(value) > 2 {
+	for len(value) >= 2 {
 		subType := EncapSubTLVType(value[0])
 		var subTlv TunnelEncapSubTLVInterface
 		switch subType {
